@@ -17,6 +17,7 @@ import numpy as _np
 import sympy as sp
 
 FIN, PINF, NINF, NAN = 'fin', '+inf', '-inf', 'nan'
+PI = sp.Symbol('PI_const', positive=True)      # the real number pi (np.pi in the twin), a transcendental constant
 NEG, ZERO, POS = 'neg', 'zero', 'pos'
 ALL3 = frozenset((NEG, ZERO, POS))
 
@@ -828,7 +829,7 @@ def _cos_sin(a):
     a = lift(a)
     if a.kind != FIN:
         return Sym(0, NAN), Sym(0, NAN)
-    e = a.e
+    e = a.e.subs(PI, sp.pi)
     if e.has(sp.I):
         raise Unsupported('trig of complex argument')
     if e.is_number:
@@ -849,7 +850,7 @@ def _cos_sin(a):
     if const != 0:
         c0, s0 = sp.cos(const), sp.sin(const)
         if not (c0.is_Rational and s0.is_Rational):
-            c0, s0 = _trig_atom(p, const)
+            c0, s0 = _trig_atom(p, const.subs(sp.pi, PI))
         cc, ss = c0, s0
     for coef, base in terms:
         # canonical sign of the base
